@@ -62,6 +62,24 @@ type Case struct {
 
 const dupValue = "second-value-for-another-path"
 
+// textualValue: the value of the first Set-Cookie line of that name, read the way a lenient client does - the text
+// between the first '=' and the first ';'.
+func textualValue(resp *fasthttp.Response, name string) (string, bool) {
+	val, found := "", false
+	resp.Header.VisitAllCookie(func(k, line []byte) {
+		if found || string(k) != name {
+			return
+		}
+		if i := bytes.IndexByte(line, '='); i >= 0 {
+			val, found = string(line[i+1:]), true
+			if j := strings.IndexByte(val, ';'); j >= 0 {
+				val = val[:j]
+			}
+		}
+	})
+	return val, found
+}
+
 func lossy(v []byte) bool {
 	s := string(v)
 	return strings.ContainsAny(s, ";\r\n") || strings.HasPrefix(s, " ") || strings.HasSuffix(s, " ") ||
@@ -139,10 +157,15 @@ func check(c Case) vk.Verdict {
 		for _, ck := range c.Cookies {
 			fc := fasthttp.AcquireCookie()
 			fc.SetKey(ck.Name)
-			if !r.Response.Header.Cookie(fc) {
+			if r.Response.Header.Cookie(fc) {
+				out[ck.Name] = string(fc.Value())
+			} else if w, ok := textualValue(&r.Response, ck.Name); ok {
+				// a line fasthttp's cookie parser refuses (an attribute it cannot read): a client still takes the text
+				// between the first '=' and the first ';' as the value
+				out[ck.Name] = w
+			} else {
 				return nil, fmt.Sprintf("no Set-Cookie for %q", ck.Name)
 			}
-			out[ck.Name] = string(fc.Value())
 			fasthttp.ReleaseCookie(fc)
 		}
 		return out, ""
@@ -171,11 +194,15 @@ func check(c Case) vk.Verdict {
 				return
 			}
 			var fc fasthttp.Cookie
-			if err := fc.ParseBytes(line); err != nil {
-				fail = fmt.Sprintf("unparsable Set-Cookie line %q", line)
-				return
+			w := ""
+			if err := fc.ParseBytes(line); err == nil {
+				w = string(fc.Value())
+			} else if i := bytes.IndexByte(line, '='); i >= 0 {
+				w = string(line[i+1:])
+				if j := strings.IndexByte(w, ';'); j >= 0 {
+					w = w[:j]
+				}
 			}
-			w := string(fc.Value())
 			if excepted(name, c.Except) {
 				plain = append(plain, w)
 				return
@@ -396,7 +423,7 @@ func genValue(t *rapid.T) []byte {
 	case 6, 7:
 		return []byte(strings.Repeat(rapid.StringMatching(`[a-z]{1,8}`).Draw(t, "rep"), rapid.IntRange(8, 256).Draw(t, "times")))
 	case 8:
-		return []byte(rapid.SampledFrom([]string{"a;b", " x ", `"q"`, "a; Path=/evil", "x ", " y"}).Draw(t, "lossy"))
+		return []byte(rapid.SampledFrom([]string{"a;b", " x ", `"q"`, "a; Path=/evil", "x ", " y", "secret-text; max-age=soon", "secret-text; expires=never"}).Draw(t, "lossy"))
 	case 9, 10:
 		// a value that is also the name of a cookie (names and plaintexts of one request must never be confused)
 		return []byte(rapid.SampledFrom(names).Draw(t, "nameasvalue"))
